@@ -28,6 +28,9 @@ T32_GROUPS = [
     ('t32_store_single', 'thumb_store_single_data_item', 'dec_thumb_store_single_data_item', 't32_sts_table', 'no_env'),
     ('t32_load_word', 'thumb_load_word', 'dec_thumb_load_word', 't32_ldw_table', 'no_env'),
     ('t32_load_byte', 'thumb_load_byte_memory_hints', 'dec_thumb_load_byte_memory_hints', 't32_ldb_table', 'res'),
+    ('t32_branches_misc_control', 'thumb_branches_and_miscellaneous_control', 'dec_thumb_branches_and_miscellaneous_control', 't32_bmc_table', 'res:t32_bmc_env'),
+    ('t32_cps_hints', 'thumb_change_processor_state_and_hints', 'dec_thumb_change_processor_state_and_hints', 't32_cps_table', 'res'),
+    ('t32_misc_control', 'thumb_miscellaneous_control_instructions', 'dec_thumb_miscellaneous_control_instructions', 't32_mctl_table', 'res'),
     ('t32_load_halfword', 'thumb_load_halfword_memory_hints', 'dec_thumb_load_halfword_memory_hints', 't32_ldh_table', 'no_env'),
     ('t32_dp_register', 'thumb_data_processing_register', 'dec_thumb_data_processing_register', 't32_dpr_table', 't32_dpr_env'),
     ('t32_multiply', 'thumb_multiply_multiply_accumulate_and_absolute_difference', 'dec_thumb_multiply_multiply_accumulate_and_absolute_difference', 't32_mul_table', 'no_env'),
@@ -67,9 +70,11 @@ def t32_cases(rng, tier):
         if label == 't32_load_halfword':          # the table covers Rt <> 1111 (the Rt = 1111 slots are preload hints)
             words = [w if (w >> 12) & 15 != 15 else w ^ (1 << 12) for w in words]
         for w in words:
-            if env == 'res':
+            if env == 'res' or env.startswith('res:'):
+                renv = env[4:] if env.startswith('res:') else '[]'
                 model = f'(match {fn} {w} with Val (Some c) => [0; 1; c] | Val None => [0; 0] | Err EUndefined => [2; 6] | Err _ => [2; 7] end)'
-                spec = f'(enc_leaf_res (lookup {table} (LRet (Val None)) {w}) {w})'
+                spec = (f'(match eval_leaf {renv} (Val None) (lookup {table} (LRet (Val None)) {w}) {w} with Val (Some c) => [0; 1; c] '
+                        f'| Val None => [0; 0] | Err EUndefined => [2; 6] | Err _ => [2; 7] end)')
                 out.append({'impl': {'kind': 'decode', 'module': module, 'instr': w}, 'model': model, 'spec': spec,
                             'label': label, 'nontrivial': True})
                 continue
@@ -93,7 +98,7 @@ def units():
     return [Unit('thumb16', ['C07_thumb16'], ['Proofs/Cube.v', 'Proofs/DecodeReify.v', 'Proofs/DecThumb16.v'], [], cases, IMPORTS, SPEC_IMPORTS),
             Unit('thumb32_groups', ['C07_thumb32_top', 'C07_thumb32_move_shift', 'C07_thumb32_dp_shifted_register',
                                     'C07_thumb32_dp_modified_immediate', 'C07_thumb32_plain_binary_immediate'] +
-                 ['C07_thumb32_' + s for s in ('lsm', 'dual', 'sts', 'ldw', 'dpr', 'mul', 'lmul', 'pas', 'pau', 'misc', 'ldh', 'ldb')],
+                 ['C07_thumb32_' + s for s in ('lsm', 'dual', 'sts', 'ldw', 'dpr', 'mul', 'lmul', 'pas', 'pau', 'misc', 'ldh', 'ldb', 'bmc', 'cps', 'mctl')],
                  ['Proofs/Cube.v', 'Proofs/DecodeReify.v', 'Proofs/DecThumb32.v'], [], t32_cases, IMPORTS,
                  SPEC_IMPORTS + '\nFrom ArmV Require Import Spec.DecTablesT32.'),
             Unit('operands', [], [], [], operand_cases, OP_IMPORTS, OP_SPEC_IMPORTS)]
